@@ -673,7 +673,7 @@ class Engine:
             s.add(z3.Not(ob.goal))
             s.add(*extra)
             return s, s.check()
-        budget = self.timeout_ms if ob.kind != "canary" else 1500
+        budget = self.timeout_ms if ob.kind != "canary" else 400
         first = min(2500, budget)
         s, r = z3_try(first)
         ob.backend = "z3-" + z3.get_version_string()
